@@ -30,6 +30,22 @@ func GenCase(r *rand.Rand, i int, seed int64) Case {
 	all := []string{"random", "chain", "blocked", "mutex", "autos", "autos", "multi", "sparse", "health", "autoveto"}
 	o := core.GenOpts{MaxStates: 6, MaxOps: 14, Handlers: 0.5, Nested: 0.25, Checks: 0.2, Faults: 0.1, Motifs: all}
 	cc := core.GenCase(r, o)
+	// error states of a user schema: names starting with Err, not tied to Exception
+	if r.Intn(5) < 2 && len(cc.Lines) > 0 {
+		if sch, err := core.ParseSchemaLine(cc.Lines[0]); err == nil {
+			pool := []string{"ErrNetwork", "ErrDisk", "ErrAuth"}
+			k := 0
+			for _, i := range r.Perm(len(sch.Names)) {
+				if k < len(pool) && len(sch.Names[i]) == 1 && r.Intn(3) > 0 {
+					sch.Names[i] = pool[k]
+					k++
+				}
+			}
+			sch.Alpha = core.ComputeAlpha(sch.Names)
+			cc.Lines[0] = sch.Line()
+			cc.Tag += "+errstates"
+		}
+	}
 	return Case{Core: cc, Id: fmt.Sprintf("c16-%d-%d", seed, i), Seed: r.Int63(), Can: r.Intn(2) == 0}
 }
 
@@ -96,7 +112,13 @@ func RunPipeline(seed int64, tier, driver, outDir string, n int, search bool, co
 	cases = append(cases, fixed...)
 	r := rand.New(rand.NewSource(seed))
 	for i := 0; i < n; i++ {
-		cases = append(cases, GenCase(r, i, seed))
+		c := GenCase(r, i, seed)
+		// short sessions: clients with one or two operations only
+		if n >= 4 && (i == 1 || i == 2) && len(c.Core.Lines) > 1+i {
+			c.Core.Lines = c.Core.Lines[:1+i]
+			c.Core.Tag += "+short"
+		}
+		cases = append(cases, c)
 	}
 	runs := make([]*Run, len(cases))
 	snaps := make([]*Snapshot, len(cases))
